@@ -59,6 +59,24 @@ Theorem C36_order_result_minimal : forall desc limit rows out,
 Proof. exact order_result_minimal. Qed.
 Print Assumptions C36_order_result_minimal.
 
+(* (2b) the discovery cache and the manifest cache are transparent over an unchanged
+        bucket: every ListCompleted call (miss, hit, after expiry; MaxEntries or not)
+        returns the wrapped lister's listing, so cached listings carry sound statistics *)
+Theorem C36_cache_transparent : forall enabled max_entries ws calls,
+  Forall (fun l => l = discover ws) (cache_calls enabled max_entries None (discover ws) calls).
+Proof. intros. apply cache_transparent. now left. Qed.
+Print Assumptions C36_cache_transparent.
+
+Theorem C36_cached_listing_sound : forall enabled max_entries ws calls l,
+  contiguous ws -> Forall footer_sound ws ->
+  In l (cache_calls enabled max_entries None (discover ws) calls) -> Forall stats_sound l.
+Proof.
+  intros enabled max_entries ws calls l Hc Hf Hin.
+  pose proof (C36_cache_transparent enabled max_entries ws calls) as H.
+  rewrite Forall_forall in H. rewrite (H l Hin). now apply discovery_stats_sound.
+Qed.
+Print Assumptions C36_cached_listing_sound.
+
 (* end to end: listing produced by discovery, then pruning *)
 Theorem C36_discovered_listing : forall q ws,
   contiguous ws -> Forall footer_sound ws ->
